@@ -9,7 +9,9 @@ PROVED in the companion files: `Props/C13SigFig.lean` (SigFigRound: half-unit bo
 monotonicity, success condition), `Props/C13Log.lean` (LogBase2 within 89·10^-36 of log₂, monotone, total; Ln,
 TickLog, CustomBaseLog), `Props/C13Exp2.lean` (Exp2 within relative 10^-21 on its whole domain: rounding analysis
 plus a kernel-checked certificate for the rational approximant).
-NOT PROVED (decided only by the `math` engine's 700-bit oracle): `pow_precision` (false in part: F9, F10).
+`Props/C13Pow.lean` (Pow / PowApprox: total and within `max(1,b)^⌊e⌋·10^-8` on bases in `[0.5, 1.99]`; frontier witnesses).
+NOT PROVED (decided only by the `math` engine's 700-bit oracle): `pow_precision` outside `[0.5, 1.99]` (false in part:
+F9, F10).
 -/
 import OsmoVerif.Model.Math
 import OsmoVerif.Proofs.NumLemmas
